@@ -241,6 +241,9 @@ _reported = set()
 
 
 def report(v, work, prop, key, case, o, names, what):
+    if key in v.known:
+        v.known_hit(key)
+        return
     if key in _reported:
         v.count("repeat_of_reported_key")
         return
@@ -466,7 +469,10 @@ def config_sweep(work, stats, v, prop, tier):
         else:
             continue
         if key in v.known or key in _reported:
-            v.count("known_finding_hits" if key in v.known else "repeat_of_reported_key")
+            if key in v.known:
+                v.known_hit(key)
+            else:
+                v.count("repeat_of_reported_key")
             continue
         job, rr, diag = S.run_alone(work, o)
         crashed = bool(rr.get("panic")) or rr.get("timeout")
